@@ -60,6 +60,17 @@ class BadStr(Exception):
         raise RuntimeError("str() of this exception raises")
 
 
+class Abort(BaseException):
+    """Not an Exception subclass (like KeyboardInterrupt / CancelledError)."""
+
+
+class BadStrBase(Exception):
+    """An exception whose text cannot be computed at all: str() raises a non-Exception."""
+
+    def __str__(self):
+        raise Abort("str() of this exception raises a BaseException")
+
+
 class AppBase(Exception):
     """A user exception class with a registered extractor."""
 
@@ -102,10 +113,12 @@ def _mk_exc(i, n):
         return AppLeaf(n)
     if i == 8:
         return FalsyError("falsy-%d" % n)
+    if i == 9:
+        return BadStrBase()
     raise IndexError(i)
 
 
-N_EXC = 9
+N_EXC = 10
 N_OPEN = 7
 N_MSG = 6
 N_FIN = 3
@@ -118,7 +131,7 @@ def exc_name(e):
 def exc_reason(e):
     try:
         return str(e)
-    except Exception:
+    except BaseException:
         return FALLBACK_REASON
 
 
